@@ -110,8 +110,16 @@ pub(crate) mod verif_envelope {
             }
             core::mem::forget(dec);
         } else if what == 1 {
+            // arg = 0: any position >= 4; otherwise a region: 1 wrapped key, 2 nonce, 3 ciphertext+tag
             let k = vany_index(BL);
             vassume(k >= 4);
+            if arg == 1 {
+                vassume(k < 4 + WL);
+            } else if arg == 2 {
+                vassume(k >= 4 + WL && k < 4 + WL + 12);
+            } else if arg == 3 {
+                vassume(k >= 4 + WL + 12);
+            }
             let delta = vany_u8();
             vassume(delta != 0);
             blob[k] ^= delta;
@@ -164,11 +172,17 @@ pub(crate) mod verif_envelope {
     c14!(c14_roundtrip_p32_w32, 32, 32, 96, 0, 0, Fault::None, 40);
     //@ harness c14_roundtrip_p64_w48 tier=quick shape="seed 64 B, wrapped key 48 B"
     c14!(c14_roundtrip_p64_w48, 64, 48, 144, 0, 0, Fault::None, 60);
-    //@ harness c14_tamper_p32_w32 tier=quick shape="seed 32 B, wrapped 32 B: any single byte at any position >= 4 xor any nonzero value"
+    //@ harness c14_tamper_p32_w32 tier=thorough shape="seed 32 B, wrapped 32 B: any single byte at any position >= 4 xor any nonzero value"
     c14!(c14_tamper_p32_w32, 32, 32, 96, 1, 0, Fault::None, 40);
+    //@ harness c14_tamper_wrapped_key tier=quick shape="any single byte of the wrapped key xor any nonzero value" timeout=600
+    c14!(c14_tamper_wrapped_key, 32, 32, 96, 1, 1, Fault::None, 40);
+    //@ harness c14_tamper_nonce tier=quick shape="any single byte of the AEAD nonce xor any nonzero value" timeout=600
+    c14!(c14_tamper_nonce, 32, 32, 96, 1, 2, Fault::None, 40);
+    //@ harness c14_tamper_ciphertext tier=quick shape="any single byte of ciphertext or tag xor any nonzero value" timeout=600
+    c14!(c14_tamper_ciphertext, 32, 32, 96, 1, 3, Fault::None, 40);
     //@ harness c14_tamper_p64_w48 tier=thorough shape="seed 64 B, wrapped 48 B: any single byte >= 4 modified" required=no
     c14!(c14_tamper_p64_w48, 64, 48, 144, 1, 0, Fault::None, 60);
-    //@ harness c14_lenfield0_p32_w32 tier=quick shape="wrapped-length field low byte modified (any value)" required=no
+    //@ harness c14_lenfield0_p32_w32 tier=thorough shape="wrapped-length field low byte modified (any value)" required=no
     c14!(c14_lenfield0_p32_w32, 32, 32, 96, 5, 0, Fault::None, 260);
     //@ harness c14_lenfield2_p32_w32 tier=quick shape="nonce-length field low byte modified (any value)"
     c14!(c14_lenfield2_p32_w32, 32, 32, 96, 5, 2, Fault::None, 40);
